@@ -82,10 +82,12 @@ static void check_input(Reporter& rep, const GpInput& in, bool verbose, const st
       for (size_t k = 0; k < S.size(); ++k) {
         for (size_t i = 0; i < S[k].size(); ++i) { Paths S2 = S; S2[k].insert(S2[k].begin() + i, S[k][i]); variant("dupS(" + std::to_string(k) + "," + std::to_string(i) + ")", S2, C, fr); }
         Paths S2 = S; S2[k].push_back(S[k][0]); variant("closeS(" + std::to_string(k) + ")", S2, C, fr);
+        S2[k].push_back(S[k][0]); variant("close2S(" + std::to_string(k) + ")", S2, C, fr);   // closing vertex given twice
       }
       for (size_t k = 0; k < C.size(); ++k) {
         for (size_t i = 0; i < C[k].size(); ++i) { Paths C2 = C; C2[k].insert(C2[k].begin() + i, C[k][i]); C2[k].insert(C2[k].begin() + i, C[k][i]); variant("dup2C(" + std::to_string(k) + "," + std::to_string(i) + ")", S, C2, fr); }
         Paths C2 = C; C2[k].push_back(C[k][0]); variant("closeC(" + std::to_string(k) + ")", S, C2, fr);
+        C2[k].push_back(C[k][0]); C2[k].push_back(C[k][0]); variant("close3C(" + std::to_string(k) + ")", S, C2, fr);   // ... three times
       }
       // order of paths
       if (S.size() > 1) { Paths S2(S.rbegin(), S.rend()); variant("permuteS", S2, C, fr); }
